@@ -1,10 +1,117 @@
-(* C11 — property theorems only. *)
-From Coq Require Import NArith List String.
-From AV Require Import lib.Str model.C11_model model.C11_run proofs.C11_proofs.
-Import ListNotations.
+(* C11 — Keep client Put: property theorems only.  Each is closed by `exact` of a lemma from
+   proofs/C11_proofs.v / proofs/C11_spec.v.
 
-Theorem C11_oversize_rejected : forall H svcs order want retries oracle pick hash data nbytes,
-  (BLOCKSIZE < nbytes)%N ->
-  put H svcs order want retries oracle pick EPutHR hash data nbytes = {| r_res := Oversize; r_steps := []; r_abandoned := [] |}.
-Proof. exact oversize_rejected_l. Qed.
+   Vocabulary (model/C11_model.v, model/C11_run.v):
+     gin            one Put: digest function g_H, keep_services list g_svcs, rendezvous order g_order (indices),
+                    g_want, g_retries, entry point g_entry with its arguments g_hash/g_data/g_nbytes,
+                    response oracle g_oracle : service -> attempt -> outcome, completion schedule g_pick.
+     run_g i        the model's run: result r_res (Ok loc n | Insufficient loc n | Oversize), log r_steps
+                    (per step: uploads started, upload that completed, its answer), uploads abandoned in flight.
+     exp_answer i x r   what service x answers to attempt r for THIS block (the fake service issues
+                    "<hash>+<size><suffix>"; a request whose body is unreadable or mis-sized gets no response).
+     total_stored   sum of X-Keep-Replicas-Stored (absent = 1) over the 200 answers in a log.
+   Every statement is for all digest functions, service lists, orders without repetition, oracles and schedules. *)
+From Coq Require Import Arith NArith List String Bool.
+From AV Require Import lib.Str model.C11_model model.C11_run proofs.C11_proofs proofs.C11_spec.
+Import ListNotations.
+Local Open Scope nat_scope.
+
+(* The oracle that judges the implementation is the specification: spec_b, evaluated on what the real
+   KeepClient was observed to do, is true exactly when the Prop-level Spec (proofs/C11_spec.v) holds. *)
+Theorem C11_spec_b_reflects_Spec : forall c : case, spec_b c = true <-> Spec (gin_of (c_in c)) (c_obs c).
+Proof. exact spec_b_reflects. Qed.
+Print Assumptions C11_spec_b_reflects_Spec.
+
+(* ... and the model's own behaviour satisfies the same Spec for every input. *)
+Theorem C11_model_meets_Spec : forall i : gin, NoDup (g_order i) -> Spec i (obs_of_run i (run_g i)).
+Proof. exact model_meets_spec. Qed.
+Print Assumptions C11_model_meets_Spec.
+
+(* Success only with enough confirmed replicas: n is exactly the sum of the replicas confirmed by the 200
+   answers received before returning, it reaches want, the locator is the (trimmed) body of one of those
+   answers, and every answer in the log is the one the service gives for this block's hash and size. *)
+Theorem C11_put_ok_enough : forall i l n, NoDup (g_order i) -> r_res (run_g i) = Ok l n ->
+  g_want i <= n /\ n = total_stored (r_steps (run_g i)) /\
+  ((exists s, In s (r_steps (run_g i)) /\ is200 (st_out s) = true /\ o_body (st_out s) = l) \/
+   ((forall s, In s (r_steps (run_g i)) -> is200 (st_out s) = false) /\ l = EmptyString)) /\
+  (forall s, In s (r_steps (run_g i)) -> st_out s = exp_answer i (st_done s) (st_round s)).
+Proof. exact put_ok_enough. Qed.
+Print Assumptions C11_put_ok_enough.
+
+(* a counted (200) answer carries a locator issued for exactly the block's hash and size *)
+Theorem C11_locator_for_hash_and_size : forall i x r, is200 (exp_answer i x r) = true ->
+  exists h sfx, g_oracle i x r = Resp 200 h sfx /\ exp_body_ok i = true /\
+                o_body (exp_answer i x r) = trim_space (exp_hash i ++ "+" ++ dec (exp_len i) ++ sfx)%string.
+Proof. exact counted_answer_locator. Qed.
+Print Assumptions C11_locator_for_hash_and_size.
+
+(* Failure reports the exact number stored: every started upload has returned by then (nothing abandoned),
+   n is the sum over all 200 answers and is short of want; and Put gave up only after every writable service
+   was asked at least once, those whose last answer was transient 1+Retries times; and fewer than want
+   services accept the block on every attempt. *)
+Theorem C11_put_err_reports_count : forall i l n, NoDup (g_order i) -> r_res (run_g i) = Insufficient l n ->
+  n < g_want i /\ n = total_stored (r_steps (run_g i)) /\ r_abandoned (run_g i) = [] /\
+  (forall x, In x (sv_of i) ->
+     1 <= List.length (hist x (r_steps (run_g i))) /\
+     (last_retryable x (r_steps (run_g i)) = true -> List.length (hist x (r_steps (run_g i))) = S (g_retries i))) /\
+  n_accepting i < g_want i.
+Proof. exact put_err_reports_count. Qed.
+Print Assumptions C11_put_err_reports_count.
+
+(* Only writable services are contacted: every upload goes to an item of the keep_services list that is
+   not read-only. *)
+Theorem C11_only_writable_contacted : forall i, NoDup (g_order i) ->
+  forall s x, In s (r_steps (run_g i)) -> In x (st_started s) ->
+  exists k, nth_error (g_svcs i) x = Some k /\ k_ro k = false.
+Proof. exact only_writable. Qed.
+Print Assumptions C11_only_writable_contacted.
+
+(* Retry policy: whenever an upload to service x is started, all answers x has given so far have status 0
+   (no response), 408, 429 or >= 500 other than 503, and there are at most Retries of them. *)
+Theorem C11_retry_policy : forall i, NoDup (g_order i) ->
+  forall pre s post, r_steps (run_g i) = pre ++ s :: post -> forall x, In x (st_started s) ->
+  Forall (fun o => let c := o_code o in (c = 0 \/ c = 408 \/ c = 429 \/ (500 <= c /\ c <> 503))%N) (hist x pre) /\
+  List.length (hist x pre) <= g_retries i.
+Proof. exact (fun i Hnd => sp_retry _ _ (model_meets_spec i Hnd)). Qed.
+Print Assumptions C11_retry_policy.
+
+(* Liveness: if at least want writable services answer 200 with >= 1 replica on every attempt, Put succeeds,
+   whatever the other services answer and in whatever order uploads complete. *)
+Theorem C11_put_succeeds_if_enough_accept : forall i, NoDup (g_order i) -> oversize i = false ->
+  g_want i <= List.length (filter (fun x => forallb (fun a => is200 (exp_answer i x a) && (1 <=? o_rep (exp_answer i x a)))
+                                                    (seq 0 (S (g_retries i)))) (sv_of i)) ->
+  exists l n, r_res (run_g i) = Ok l n.
+Proof. exact put_succeeds_if_enough_accept. Qed.
+Print Assumptions C11_put_succeeds_if_enough_accept.
+
+(* stronger: it is enough that the first-round answers of the writable services confirm want replicas in total *)
+Theorem C11_put_succeeds_if_first_round_enough : forall i, NoDup (g_order i) -> oversize i = false ->
+  g_want i <= list_sum (map (fun x => stored_of (exp_answer i x 0)) (sv_of i)) ->
+  exists l n, r_res (run_g i) = Ok l n.
+Proof. exact put_succeeds_if_first_round_enough. Qed.
+Print Assumptions C11_put_succeeds_if_first_round_enough.
+
+(* Termination: the loop of one round (modelled with fuel 2*|servers|+1) has really exited when the fuel is
+   used up — replicasTodo = 0, or nothing in flight and no server left — and more fuel changes nothing.
+   The number of rounds is 1+Retries by construction ([outer] recurses on it). *)
+Theorem C11_terminates : forall rpt answer pick round servers dn td lc tr k,
+  let s' := fst (inner rpt answer pick (round_fuel servers) round (s_init servers dn td lc tr) k) in
+  (todo s' = 0 \/ (active s' = [] /\ List.length (sv s') <= next s')) /\
+  forall e, inner rpt answer pick (round_fuel servers + e) round (s_init servers dn td lc tr) k =
+            inner rpt answer pick (round_fuel servers) round (s_init servers dn td lc tr) k.
+Proof. exact round_terminates. Qed.
+Print Assumptions C11_terminates.
+
+(* PutHR rejects dataBytes > BLOCKSIZE without contacting anyone, and nothing else is ever rejected as oversize *)
+Theorem C11_oversize_rejected : forall i, NoDup (g_order i) ->
+  (r_res (run_g i) = Oversize <-> (g_entry i = EPutHR /\ (BLOCKSIZE < g_nbytes i)%N)) /\
+  (r_res (run_g i) = Oversize -> r_steps (run_g i) = []).
+Proof. exact oversize_rejected. Qed.
 Print Assumptions C11_oversize_rejected.
+
+(* the hypotheses above are satisfiable: a concrete Put with two accepting disk services and want = 2 *)
+Theorem C11_hypotheses_satisfiable :
+  exists i, NoDup (g_order i) /\ oversize i = false /\ g_want i = 2 /\ 2 <= n_accepting i /\
+            r_res (run_g i) = Ok "h+3+A0"%string 2.
+Proof. exact example_put. Qed.
+Print Assumptions C11_hypotheses_satisfiable.
